@@ -128,6 +128,16 @@ def run(pid, tier, seed):
         sw["states"] = sw.get("states", 0) + lst.get("states", 0)
         sw["transitions"] = sw.get("transitions", 0) + lst.get("transitions", 0)
         sw["replayed"] = sw.get("replayed", 0) + lst.get("replayed_behaviours", 0)
+    fobs = (0, 0, 0)
+    if pid == "C14":
+        # format() keeps nothing from one call to the next: formats around the scratch-buffer rule, each repeated after an
+        # unrelated call that needs a much larger buffer (the `hist` field of the Format event)
+        from checks import format as fmtcheck
+        import fmtgen
+        fobs = fmtcheck.observe_formats(pid, verdict, work, fmtgen.WIDTHS + fmtgen.WIDE + fmtgen.ORDERS + fmtgen.REPO, tier, seed, "cache:Format")
+        sw["states"] = sw.get("states", 0) + fobs[1]
+        sw["transitions"] = sw.get("transitions", 0) + fobs[2]
+        sw["format_history_events"] = fobs[0]
     # ---- 2. impl -> spec on real-range zones
     try:
         exe = V.build_driver("drv_zone", "asan")
